@@ -123,9 +123,12 @@ proof fn lemma_match_offset(d: &DFA, sid: StateID)
 }
 
 impl DFA {
+// R-newUnchecked: `StateID::new_unchecked(k)` -> `StateID(k)` (body of the macro-generated const fn)
+//@@ item src/dfa.rs | const DEAD: StateID
+//@@ sigsub 1 /StateID::new_unchecked\((\d+)\)/ => StateID(\1)
+//@@ end
 
 //@@ fn src/dfa.rs | fn start_state(&self, anchored: Anchored) -> Result<StateID, MatchError> | res=r
-//@@ sub 2 /DFA::DEAD/ => StateID(0)
 //@@ header
         requires dfa_wf(self),
         ensures
@@ -152,7 +155,6 @@ impl DFA {
 //@@ end
 
 //@@ fn src/dfa.rs | fn is_dead(&self, sid: StateID) -> bool | within=unsafe impl Automaton for DFA | res=r
-//@@ sub 1 /DFA::DEAD/ => StateID(0)
 //@@ header
         ensures r == (sid.0 == 0)
 //@@ end
